@@ -619,6 +619,47 @@ func TestCheck(t *testing.T) {
 		})
 	})
 
+	r.Phase("F: texts judged while a custom package-level Formatter (braces, upper case) is installed", func() {
+		old := uu.Formatter
+		defer func() { uu.Formatter = old }()
+		uu.Formatter = func(buf []byte, id uu.ID, f uu.Format) ([]byte, error) {
+			return append(buf, fmt.Sprintf("{%016X%016X}", id.Higher, id.Lower)...), nil
+		}
+		r.Serial(func(w *vkit.W) {
+			x := format(0x0123456789abcdef, 0xfedcba9876543210)
+			for _, text := range []string{x, strings.ToUpper(x), "urn:uuid:" + x, "URN:UUID:" + x, "{" + x + "}", x[:35], x + "0", strings.ReplaceAll(x, "-", ""), "", "urn:uuid:"} {
+				for _, rule := range rules {
+					judge(Case{Kind: "text", Text: vkit.B(text), Rule: rule}, w)
+					w.EvalRandom(vkit.Hash64("F", text, strconv.Itoa(rule)), true)
+				}
+			}
+		})
+	})
+
+	// Phase L: lengths that alias a valid length modulo 2^8 or 2^16: a valid text followed (or preceded) by k x 256 more bytes.
+	r.Phase("L: valid texts followed or preceded by 1..2^20 further bytes (255, 256, 257, ..., 65536, ...), limit disabled and raised", func() {
+		x := format(0x0123456789abcdef, 0xfedcba9876543210)
+		for _, lim := range []int{-1, 1 << 21} {
+			restore := setLimit(lim)
+			r.Parallel(int64(len([]int{1, 255, 256, 257, 511, 512, 513, 65535, 65536, 65537, 1 << 20})), 1, func(w *vkit.W, lo, hi int64) {
+				for i := lo; i < hi; i++ {
+					n := []int{1, 255, 256, 257, 511, 512, 513, 65535, 65536, 65537, 1 << 20}[i]
+					for _, base := range []string{x, "urn:uuid:" + x, strings.ToUpper(x)} {
+						for _, pad := range []string{"0", "-", " ", "\x00", "f"} {
+							for _, text := range []string{base + strings.Repeat(pad, n), strings.Repeat(pad, n) + base} {
+								for _, rule := range rules {
+									judge(Case{Kind: "text", Text: vkit.B(text), Rule: rule, Limit: lim}, w)
+									w.EvalRandom(vkit.Hash64("L", base, pad, strconv.Itoa(n), strconv.Itoa(rule), strconv.Itoa(lim)), true)
+								}
+							}
+						}
+					}
+				}
+			})
+			restore()
+		}
+	})
+
 	r.Phase(fmt.Sprintf("W: %d conventional special texts (null, nil, the nil UUID, braces, every prefix of urn:uuid:, ...) x 4 rule sets x limits", len(ref.ConventionalTexts)), func() {
 		for _, lim := range []int{0, -1, 3} {
 			restore := setLimit(lim)
